@@ -30,6 +30,18 @@ CHECKS = {
   design_ref="DESIGN.md §4 C12",
   note="Trusted: Lean kernel + standard axioms; py2lean translator (self-checked per run); float ~ rational within 1e-9.",
   technique="Lean 4 proof over a model regenerated from source by py2lean (+ translator self-check)"),
+ "C04": dict(
+  category="proof",
+  text="Lean 4 theorems hint_sound_one_step and hint_sound_chain over a model of _extract_engine_history_as_response / run_plan / run_plan_with_hint (three-way prefix test, walk-back to a restorable response, DummyCheckpoint, reload, re-extraction), parametric in the play function, store, views, hash and in what a DummyCheckpoint restores to: for EVERY previous plan, new plan and chain of edits the incremental result equals the full run; reload_point_is_real shows the only checkpoint restored after the reload is a kept one. Validated on the real API for all jobs with edits at every index around each checkpoint boundary, hints in memory and through JSON, and chains; the model runner is replayed over recorded play tables.",
+  design_ref="DESIGN.md §4 C04",
+  note="Trusted: Lean kernel + standard axioms; hand model tied by recorded-table replay; StoreLaws; response rendering is a function of playlog+checkpoint; Lark parser, pydantic, json, yaml.",
+  technique="Lean 4 proof (list algebra over histories + C01 invariant) + differential correspondence"),
+ "C13": dict(
+  category="proof",
+  text="Lean 4 theorems over a model of SimulationEntry.build, DamageCalculator totals/dpm, DamageShareFeature and the two-pointer window scan: totals equal sums per action and per skill, shares non-negative and summing to one, every qualifying event counted exactly once with buff+modifier, and two_pointer_eq_exhaustive: for sorted clocks and positive window length the scan returns the exhaustive maximum over shortest qualifying windows and its indices reproduce the value (fuel sufficiency proved). The scan and the report pipeline are compared with the real code on exhaustive small and random sequences and on real runs.",
+  design_ref="DESIGN.md §4 C13",
+  note="Trusted: Lean kernel + standard axioms; hand model tied by differential correspondence; damage-per-log abstract (its formula is C12); known finding F12 (window length <= 0 raises).",
+  technique="Lean 4 proof (loop invariant of the two-pointer scan, sum rearrangements) + differential correspondence"),
 }
 
 NOT_YET = "check not built yet in this round (work in progress; see DESIGN.md §6 build order)"
